@@ -123,6 +123,42 @@ void gen_history(Tape &t, Case &c, int maxlen, bool allow_copy, int solve_weight
     c.ops.push_back(d);
     if (t.chance(3, 4)) c.ops.push_back(Op("probe"));
   }
+  // Tail for objects that come from the file readers (they carry a row-major copy of the matrix that the simplex
+  // uses for its row-wise computations as long as no structural edit has dropped it): direct solve, overwrite an
+  // existing coefficient (often just its sign), move the right-hand side of that row so that the old basis
+  // becomes infeasible, and let the final solve below re-optimise
+  if (g_adaptive_tail && route == R_FILE && gm.m() > 0 && t.chance(1, 2)) {
+    SolveCfg c1 = gen_cfg(t, true);
+    c1.precision = 0;
+    c1.entry = 1 + (int)t.below(2);
+    if (t.chance(2, 3)) c1.entry = 2;
+    Op so = c1.op();
+    so.k = "solve";
+    c.ops.push_back(so);
+    int nedit = 1 + (int)t.below(3);
+    for (int e = 0; e < nedit; e++) {
+      int i = (int)t.below((uint32_t)gm.m());
+      if (gm.rows[i].a.empty()) continue;
+      auto it = gm.rows[i].a.begin();
+      std::advance(it, t.below((uint32_t)gm.rows[i].a.size()));
+      Q nv = t.chance(1, 2) ? Q(-it->second) : gen_nz(t, 1);
+      Op cc("chgcoef");
+      cc.I(i).I(it->first).N(nv);
+      if (model_apply(gm, cc, nullptr)) c.ops.push_back(cc);
+      if (t.chance(2, 3)) {
+        Op cr("chgrhs");
+        cr.I(i).N(gm.rows[i].rhs + gen_nz(t, 1));
+        if (model_apply(gm, cr, nullptr)) c.ops.push_back(cr);
+      }
+    }
+    if (t.chance(1, 3)) c.ops.push_back(Op("probe"));
+    SolveCfg c2 = gen_cfg(t, true);
+    c2.precision = 0;
+    c2.entry = t.chance(3, 4) ? 2 : 1;
+    Op so2 = c2.op();
+    so2.k = "solve";
+    c.ops.push_back(so2);
+  }
   // always end with a solve so that the last edits are judged
   SolveCfg cfg = gen_cfg(t, true);
   cfg.precision = 0;
